@@ -19,6 +19,8 @@ pub struct Entry {
     /// inputs satisfying the precondition of this entry's theorems (used by the witness search so that a
     /// reported input is one on which the property actually speaks)
     pub pre: Option<Box<dyn Fn(u64) -> Vec<f64>>>,
+    /// the same body compiled for `i64`, for entries whose traits f64 lacks (bit operations, shifts, `Ord`)
+    pub i64f: Option<Box<dyn Fn(&[i64]) -> Out<i64>>>,
 }
 
 pub struct Reg { pub entries: Vec<Entry> }
@@ -26,7 +28,7 @@ impl Reg {
     pub fn new() -> Self { Reg { entries: vec![] } }
     pub fn add(&mut self, name: &str, nin: usize, sym: Box<dyn Fn(&[Sym]) -> Out<Sym>>, f: Option<Box<dyn Fn(&[f64]) -> Out<f64>>>) -> &mut Entry {
         assert!(!self.entries.iter().any(|e| e.name == name), "duplicate entry {}", name);
-        self.entries.push(Entry { name: name.to_string(), nin, sym, f64: f, budget: 100_000, dom: Dom::Mixed, int: None, pre: None });
+        self.entries.push(Entry { name: name.to_string(), nin, sym, f64: f, budget: 100_000, dom: Dom::Mixed, int: None, pre: None, i64f: None });
         self.entries.last_mut().unwrap()
     }
 }
@@ -57,6 +59,18 @@ macro_rules! ep_sym {
             Box::new(move |$a: &[$crate::sym::Sym]| -> $crate::explore::Out<$crate::sym::Sym> { #[allow(dead_code)] type T = $crate::sym::Sym; $body }),
             None)
     };
+}
+
+/// symbolic + the real code on `i64` (traits f64 lacks: bit operations, shifts, `Ord`)
+#[macro_export]
+macro_rules! ep_symi {
+    ($reg:expr, $name:expr, $nin:expr, |$a:ident| $body:block) => {{
+        let e = $reg.add(&$name, $nin,
+            Box::new(move |$a: &[$crate::sym::Sym]| -> $crate::explore::Out<$crate::sym::Sym> { #[allow(dead_code)] type T = $crate::sym::Sym; $body }),
+            None);
+        e.i64f = Some(Box::new(move |$a: &[i64]| -> $crate::explore::Out<i64> { #[allow(dead_code)] type T = i64; $body }));
+        e
+    }};
 }
 
 /// integer entries: the body is compiled for the symbolic integer `$S` and for the real 8-bit type `$I`
